@@ -57,7 +57,7 @@ def step_delete_flag(n, absent=False):
 def step_fetch(n, absent=False):
     return st.builds(
         lambda s, u, ss, w: {"op": "fetch", "s": s, "uid": u, "set": ss, "what": w},
-        sess(n), st.booleans(), seqset(absent), st.integers(0, 5),
+        sess(n), st.booleans(), seqset(absent), st.integers(0, 11),
     )
 
 
